@@ -98,6 +98,8 @@ type Frame struct {
 	reach  map[*ssa.BasicBlock]string
 	out    map[*ssa.BasicBlock][]edge
 	inEdges map[*ssa.BasicBlock][]edgeFrom
+	wob     []*ssa.Alloc
+	wobDone bool
 	loops  map[*ssa.BasicBlock]*loopInfo
 	rets   []retInfo
 	depth  int
